@@ -9,9 +9,7 @@ CLAIMED = {}
 def claim(pid, technique, text, note, ref):
     CLAIMED[pid] = dict(technique=technique, text=text, note=note, ref=ref)
 
-NA = {
- "C06": "Liveness within a bounded number of rounds after stabilisation quantifies over delivery schedules, timer interleavings and real time; no sound static argument in reach bounds rounds-to-decision, and no structural clause was found that is both necessary under the property's own assumptions and not already enforced by the existing tests (DESIGN.md §4 C06, §5). The two shape facts that are necessary (every phase entry arms the phase alarm; a valid DECIDE moves any earlier phase to DECIDE) are checked under C07 and not offered as evidence for C06.",
-}
+NA = {}
 
 exec(open(os.path.join(os.path.dirname(__file__), 'claims.py')).read())
 
